@@ -182,7 +182,7 @@ def replay_states(states, extra):
             if v[1]:
                 drift.append('float rounding: %r graded %r, exact %s' % (s, obs['grade'], out['g']))
             elif len(bad) < 40:
-                bad.append({'pid': c['pid'], 's': s, 'out': out, 'obs': obs, 'clause': v[0]})
+                bad.append({'pid': c['pid'], 's': s, 'syms': c['text'], 'out': out, 'obs': obs, 'clause': v[0]})
             else:
                 bad.append(None)
         else:
@@ -577,7 +577,8 @@ def run(ctx):
                 P = catalogue[b['pid'] - 1]
                 sig = signature(P, b['s'], b['out'], b['obs'], b['clause'], 'enumerated:' + part)
                 ctx.violation(sig, 'SingleListGrader(%s) on %r: spec allows %s, code gave %s [%s]' % (
-                    describe(P), b['s'], brief(b['out']), brief_obs(b['obs']), b['clause']))
+                    describe(P), b['s'], brief(b['out']), brief_obs(b['obs']), b['clause']),
+                    detail={'P': P, 'text': b['syms']})
     # code -> spec
     n_flat, n_big, n_nested = (500, 400, 400) if ctx.quick else (8000, 6000, 6000)
     cases = []
@@ -615,7 +616,8 @@ def run(ctx):
             continue
         sig = signature(r['P'], text(r['text']), allowed, raws[i], name, 'random:' + kinds[i])
         ctx.violation(sig, 'SingleListGrader(%s) on %r: spec wants grade %s/%s, code gave %s [%s]' % (
-            describe(r['P']), text(r['text']), clause[1], clause[2], brief_obs(raws[i]), name))
+            describe(r['P']), text(r['text']), clause[1], clause[2], brief_obs(raws[i]), name),
+            detail={'P': r['P'], 'text': r['text']})
     ctx.extra['outcomes_reached'] = sorted(reached)
     ctx.extra['bounds'] = {
         'tier': ctx.tier,
@@ -659,6 +661,19 @@ def brief_obs(obs):
 
 
 def replay(ctx, rec):
-    sig = rec['signature']
-    print('signature:', json.dumps(sig, indent=1, default=str)[:3000])
-    return False
+    """re-run one recorded failing case: real grader again, verdict again by the trace specification"""
+    d = rec.get('detail') or {}
+    print('signature:', json.dumps(rec['signature'], indent=1, default=str)[:3000])
+    if 'P' not in d:
+        return False
+    from engine import repo
+    repo.activate()
+    out = observe_chunk([{'id': 0, 'P': d['P'], 'text': d['text'], 'kind': 'replay'}], None)[0]
+    print('observed now:', out.get('raw'), out.get('skip'))
+    if 'skip' in out:
+        return False
+    out.pop('raw')
+    out.pop('kind')
+    rej = traces.validate(ctx, 'graders/SingleListTrace.tla', 'graders/SingleListTrace.cfg', [out], name='replay')
+    print('trace specification:', 'accepts' if not rej else 'rejects with %s' % (rej,))
+    return not rej
